@@ -160,7 +160,7 @@ def _specname(n):
         return NONAME
     if isinstance(n, bytes):
         return "bytes:" + n.hex()
-    return n
+    return C.UNSPELL.get(n, n)      # back to the specification's spelling (a, b, c) of the proto being judged
 
 
 def project_roots(roots) -> dict:
